@@ -818,6 +818,85 @@ pub fn programs(tier: Tier) -> Vec<(String, Vec<Stmt>)> {
             out.push((format!("export/{name}/{kind}"), prog));
         }
     }
+    // export product: every source expression x every export option, singly and in ordered pairs
+    // (the second export meets whatever names the first one took)
+    {
+        let sources: Vec<(&str, Expr)> = vec![
+            ("t.run", acc(id("t"), "run")),
+            ("t.foo", acc(id("t"), "foo")),
+            ("t[out]", Expr::NamedAccess(Box::new(id("t")), "out".into())),
+            ("ifoo", id("ifoo")),
+            ("rbar", id("rbar")),
+            ("foo", id("foo")),
+            ("x", id("x")),
+            ("px", id("px")),
+            ("pfoo", id("pfoo")),
+            ("pdupc", id("pdupc")),
+            ("al", id("al")),
+            ("t", id("t")),
+            ("prov", id("prov")),
+            ("(t)", Expr::Paren(Box::new(id("t")))),
+            ("prov.foo.f", acc(acc(id("prov"), "foo"), "f")),
+        ];
+        let opts: Vec<(&str, ExportOpt)> = vec![
+            ("plain", ExportOpt::None),
+            ("as-id", ExportOpt::AsId("e1".into())),
+            ("as-str", ExportOpt::AsStr("e-2".into())),
+            ("as-run", ExportOpt::AsId("run".into())),
+            ("as-x", ExportOpt::AsStr("x".into())),
+            ("spread", ExportOpt::Spread),
+        ];
+        let forms: Vec<(String, Stmt)> = sources.iter().flat_map(|(sn, e)| opts.iter().map(move |(on, o)| (format!("{sn}:{on}"), Stmt::Export(e.clone(), o.clone())))).collect();
+        let rest = vec![Arg::Inferred("pbar".into()), Arg::Fill];
+        for (n1, s1) in &forms {
+            for (kind, args) in [("explicit", full.clone()), ("implicit-rest", rest.clone())] {
+                let mut prog = pre.clone();
+                prog.push(Stmt::Let("t".into(), Expr::New("t:target".into(), args)));
+                prog.push(s1.clone());
+                out.push((format!("export-product/1/{kind}"), prog));
+            }
+            for (i2, (_n2, s2)) in forms.iter().enumerate() {
+                if tier == Tier::Quick && (i2 + n1.len()) % 2 != 0 && !matches!(s2, Stmt::Export(_, ExportOpt::Spread)) {
+                    continue;
+                }
+                let mut prog = pre.clone();
+                prog.push(Stmt::Let("t".into(), Expr::New("t:target".into(), rest.clone())));
+                prog.push(s1.clone());
+                prog.push(s2.clone());
+                out.push(("export-product/2".to_string(), prog));
+            }
+        }
+        // access product: every base x every accessor, bound by `let` and exported under a fresh name
+        let bases = ["prov", "t", "pfoo", "ifoo", "foo", "rbar", "x", "px", "lone"];
+        let accessors: Vec<Box<dyn Fn(Expr) -> Expr>> = vec![
+            Box::new(|b| acc(b, "x")),
+            Box::new(|b| acc(b, "foo")),
+            Box::new(|b| acc(b, "bar")),
+            Box::new(|b| acc(b, "dup")),
+            Box::new(|b| acc(b, "f")),
+            Box::new(|b| acc(b, "run")),
+            Box::new(|b| acc(b, "nope")),
+            Box::new(|b| Expr::NamedAccess(Box::new(b), "a:c/dup".into())),
+            Box::new(|b| Expr::NamedAccess(Box::new(b), "a:b/foo".into())),
+            Box::new(|b| Expr::NamedAccess(Box::new(b), "a:b/bar@1.0.0".into())),
+            Box::new(|b| Expr::NamedAccess(Box::new(b), "a:b/bar".into())),
+            Box::new(|b| Expr::NamedAccess(Box::new(b), "bar".into())),
+            Box::new(|b| Expr::NamedAccess(Box::new(b), "f".into())),
+            Box::new(|b| acc(acc(b, "foo"), "f")),
+            Box::new(|b| acc(Expr::Paren(Box::new(acc(b, "bar"))), "f")),
+        ];
+        for b in bases {
+            for a in &accessors {
+                for export_plain in [false, true] {
+                    let mut prog = pre.clone();
+                    prog.push(Stmt::Let("t".into(), Expr::New("t:target".into(), rest.clone())));
+                    prog.push(Stmt::Let("v".into(), a(id(b))));
+                    prog.push(Stmt::Export(id("v"), if export_plain { ExportOpt::None } else { ExportOpt::AsStr("o-1".into()) }));
+                    out.push(("access-product".to_string(), prog));
+                }
+            }
+        }
+    }
     // single-fault variants
     let with_t = |args: Vec<Arg>, tail: Vec<Stmt>| {
         let mut p = pre.clone();
